@@ -185,6 +185,10 @@ def Program(pid, fns, globs=(), feats=None, sings=(), host=None, imports=(), imp
 
 
 # ---- rendering -----------------------------------------------------------------------------
+KEYWORDS = {"fn", "let", "if", "else", "match", "try", "catch", "loop", "while", "for", "in", "break", "continue", "return", "true", "false",
+            "null", "none", "new", "as", "pub", "import", "from", "type", "templ", "impl", "with", "trigger", "event", "spawn", "on", "off", "_"}
+
+
 class W:
     def __init__(self, minimal=False):
         self.minimal = minimal       # write only the parentheses the operator table requires
@@ -355,7 +359,8 @@ def r_expr(w, n, ind):
         for i, f in enumerate(n["fs"]):
             if i:
                 w.w(", ")
-            w.w((f["key"] if re.fullmatch(r"[A-Za-z_][A-Za-z0-9_]*", f["key"]) else esc([ord(c) for c in f["key"]])) + ": ")
+            bare = re.fullmatch(r"[A-Za-z_][A-Za-z0-9_]*", f["key"]) and f["key"] not in KEYWORDS
+            w.w((f["key"] if bare else esc([ord(c) for c in f["key"]])) + ": ")
             r_expr(w, f["e"], ind)
         w.w(" }")
     elif k == "idx":
